@@ -254,15 +254,18 @@ impl RegExpBuilder {
 /// Replaces Rust Unicode escape sequences to Python Unicode escape sequences.
 fn replace_unicode_escape_sequences(regexp: String) -> String {
     lazy_static! {
-        static ref ESCAPE_SEQUENCE: Regex = Regex::new(r"\\u\{([0-9a-f]{1,6})\}").unwrap();
+        // Every backslash starts an escape: either a Unicode escape sequence or a backslash
+        // followed by one other character. Matching the latter as well keeps an escaped
+        // backslash followed by a quantified literal `u`, as in `\\u{2}`, from being
+        // mistaken for a Unicode escape sequence.
+        static ref ESCAPE_SEQUENCE: Regex =
+            Regex::new(r"(?s)\\(?:u\{([0-9a-f]{1,6})\}|.)").unwrap();
     }
     ESCAPE_SEQUENCE
-        .replace_all(&regexp, |caps: &Captures| {
-            if caps[1].len() <= 4 {
-                format!("\\u{:0>4}", &caps[1])
-            } else {
-                format!("\\U{:0>8}", &caps[1])
-            }
+        .replace_all(&regexp, |caps: &Captures| match caps.get(1) {
+            Some(digits) if digits.as_str().len() <= 4 => format!("\\u{:0>4}", digits.as_str()),
+            Some(digits) => format!("\\U{:0>8}", digits.as_str()),
+            None => caps[0].to_string(),
         })
         .to_string()
 }
